@@ -59,9 +59,9 @@ def parse_kani(out, names):
     return res
 
 
-def playback(workdir, harness, env):
+def playback(workdir, harness, env, extra=()):
     """concrete counterexample bytes -> list of little-endian integers (one per kani::any())"""
-    cmd = ['cargo', 'kani', '--harness', harness, '-Z', 'concrete-playback', '--concrete-playback=print']
+    cmd = ['cargo', 'kani'] + list(extra) + ['--harness', harness, '-Z', 'concrete-playback', '--concrete-playback=print']
     p = subprocess.run(cmd, cwd=workdir, capture_output=True, text=True, env=env)
     vals = []
     for m in re.finditer(r'//\s*(-?\d+)(?:ul|u64|usize)?\s*\n\s*vec!\[([0-9, ]*)\]', p.stdout):
@@ -81,11 +81,24 @@ def run_for(prop, tier, workdir):
     for gname, g, hs in groups_for(prop, tier):
         wd = os.path.join(workdir, gname)
         shutil.rmtree(wd, ignore_errors=True)
-        write_leaf_crate(gname, g, wd)
-        cmd = ['cargo', 'kani'] + sum((['--harness', h['name']] for h in hs), [])
+        genv = env
+        if g['kind'] == 'incrate':
+            # compiled inside the real crate through the cfg(kani) hook in src/lib.rs
+            os.makedirs(wd, exist_ok=True)
+            if 'verif_kani' not in open(os.path.join(REPO, 'src', 'lib.rs')).read():
+                out['status'] = 'undecided'
+                out['reason'] = 'cfg(kani) hook missing from src/lib.rs'
+                continue
+            genv = dict(env, CALLOOP_VERIF_DIR=os.path.dirname(KX), CARGO_TARGET_DIR=os.path.join(wd, 'target'))
+            cmd = ['cargo', 'kani', '-p', 'calloop'] + sum((['--harness', h['name']] for h in hs), [])
+            cwd = REPO
+        else:
+            write_leaf_crate(gname, g, wd)
+            cmd = ['cargo', 'kani'] + sum((['--harness', h['name']] for h in hs), [])
+            cwd = wd
         t0 = time.time()
         try:
-            p = subprocess.run(cmd, cwd=wd, capture_output=True, text=True, env=env, timeout=int(os.environ.get('KX_TIMEOUT', '600')))
+            p = subprocess.run(cmd, cwd=cwd, capture_output=True, text=True, env=genv, timeout=int(os.environ.get('KX_TIMEOUT', '600')))
             txt = p.stdout + '\n' + p.stderr
         except subprocess.TimeoutExpired:
             out['status'] = 'undecided'
@@ -110,7 +123,9 @@ def run_for(prop, tier, workdir):
                 if 'UNSATISFIABLE' in r['covers'] or 'UNREACHABLE' in r['covers']:
                     rec['status'] = 'VACUOUS'   # an assumption excludes everything: never counted
                 if rec['status'] == 'FAILURE':
-                    rec['counterexample'] = playback(wd, h['name'], env) or None
+                    rec['counterexample'] = playback(cwd, h['name'], genv, ['-p', 'calloop'] if g['kind'] == 'incrate' else []) or None
             out['harnesses'].append(rec)
         shutil.rmtree(os.path.join(wd, 'target'), ignore_errors=True)
+        if g['kind'] == 'incrate':
+            out['stubs'].append('in-crate Kani harnesses compiled through the cfg(kani) hook in src/lib.rs (no stubs)')
     return out
